@@ -3,6 +3,7 @@ package c13
 import (
 	"fmt"
 	"math"
+	"math/big"
 
 	bgvpoly "github.com/tuneinsight/lattigo/v6/circuits/bgv/polynomial"
 	"github.com/tuneinsight/lattigo/v6/circuits/common/polynomial"
@@ -195,7 +196,43 @@ func runBGV(c *eng.Ctx, cfg bgvCfg) {
 			}
 		}
 	}
+	// degree 0 (a constant polynomial): the result must be the constant (or a refusal), never a panic
+	for _, inv := range []bool{false, true} {
+		eval := bgv.NewEvaluator(params, evk, inv)
+		pe := bgvpoly.NewEvaluator(params, eval)
+		vals, ct, err := bgvInput(rnd, params, ecd, enc, maxLevel, 1, slots)
+		if err != nil {
+			break
+		}
+		c0 := pickCoeffT(rnd, t)
+		var res *rlwe.Ciphertext
+		c.Distinct(fmt.Sprintf("bgv/degree0/inv%v", inv), true)
+		panicked, pv := eng.Panics(func() {
+			res, err = pe.Evaluate(ct, bignum.NewPolynomial(bignum.Monomial, []uint64{c0}, nil), params.DefaultScale())
+		})
+		c.Eval(1)
+		switch {
+		case panicked:
+			c.Violate("C13|bgv/polynomial.Evaluator.Evaluate|panic|degree-0", fmt.Sprintf("Evaluate(ct, bignum.NewPolynomial(Monomial, []uint64{%d}, nil), scale) panics: %v", c0, pv), cfg)
+		case err != nil:
+			c.Count("errors_observed", 1)
+		default:
+			out := make([]uint64, slots)
+			if ecd.Decode(dec.DecryptNew(res), out) == nil {
+				okk := true
+				for j := range out {
+					okk = okk && out[j] == c0
+				}
+				c.Check(okk && res.Level() == maxLevel, "C13|bgv/polynomial.Evaluator.Evaluate|wrong-value|degree-0", func() string {
+					return fmt.Sprintf("constant polynomial %d on %v...: got %v... at level %d", c0, eng.U64s(vals, 4), eng.U64s(out, 4), res.Level())
+				})
+			}
+		}
+	}
 	// constructor domain: NewPolynomial / NewPolynomialVector are generic over bgv.Integer = int64 | uint64
+	if cfg.Idx%8 != 0 {
+		return
+	}
 	if p, v := eng.Panics(func() { _ = bgvpoly.NewPolynomial([]int64{1, 2, 3}) }); p {
 		c.Eval(1)
 		c.Violate("C13|bgv/polynomial.NewPolynomial|panic|int64-coefficients", fmt.Sprintf("bgvpoly.NewPolynomial([]int64{1,2,3}) panics: %v (the type parameter admits int64)", v), nil)
@@ -374,9 +411,20 @@ func bgvEvalOnce(c *eng.Ctx, rnd *eng.Rand, cfg bgvCfg, params bgv.Parameters, s
 	}
 	// remaining noise budget of the result (evidence that the parameter rule leaves room)
 	if bad < 0 && badUnmapped < 0 && rnd.N(4) == 0 && params.N() <= 256 {
-		ph := obs.Phase(params.Parameters, res.El(), sk)
-		st := obs.Stat(obs.Centered(params.RingQ().AtLevel(res.Level()), ph))
-		logQ := float64(params.RingQ().AtLevel(res.Level()).Modulus().BitLen())
+		// lattigo's BGV keeps t^-1*m + e in the phase: t*phase mod Q = m + t*e is the quantity that must not wrap
+		rq := params.RingQ().AtLevel(res.Level())
+		ph := obs.Centered(rq, obs.Phase(params.Parameters, res.El(), sk))
+		qBig := rq.Modulus()
+		half := new(big.Int).Rsh(qBig, 1)
+		tBig := new(big.Int).SetUint64(t)
+		for i := range ph {
+			ph[i].Mul(ph[i], tBig).Mod(ph[i], qBig)
+			if ph[i].Cmp(half) > 0 {
+				ph[i].Sub(ph[i], qBig)
+			}
+		}
+		st := obs.Stat(ph)
+		logQ := float64(qBig.BitLen())
 		c.Count("noise_measurements", 1)
 		// fraction of log2(Q/2) used by the phase of the result: < 1000 means the decryption is unambiguous
 		c.Max("max_bgv_phase_over_logq_permille", int64(1000*(st.MaxLog2+1)/logQ))
